@@ -15,7 +15,16 @@ REPO = os.environ.get('VERIF_REPO', '/repo')
 
 TOKENS = [r'\bstatic\s+mut\b', r'\bthread_local!', r'\bUnsafeCell\b', r'\bCell\s*<', r'\bRefCell\b', r'\bAtomic[A-Z]\w*',
           r'\bMutex\b', r'\bRwLock\b', r'\bOnceCell\b', r'\bOnceLock\b', r'\bOnce\b', r'\blazy_static!', r'\bLazy(Lock|Cell)?\s*<',
-          r'\bstatic\s+[A-Z_]+\s*:\s*(?!&|\[|u8|usize|u16|u32|u64|bool)', r'\bas\s+\*mut\b', r'\bwrite_volatile\b|\bptr::write\b|\.write\(\s*[a-z]']
+          r'\bstatic\s+[A-Z_]+\s*:\s*(?!&|\[|u8|usize|u16|u32|u64|bool)', r'\bas\s+\*mut\b', r'\bwrite_volatile\b|\bptr::write\b|\.write\(\s*[a-z]',
+          # a shared reference turned into a writable pointer, or raw-pointer writes
+          r'\bcast_mut\b', r'\bas_mut_ptr\b', r'\bfrom_raw_parts_mut\b', r'\baddr_of_mut!', r'\bNonNull\b', r'\bwrite_unaligned\b|\bwrite_bytes\b',
+          r'\bcopy_nonoverlapping\b|\bptr::copy\b|\bptr::swap\b|\bptr::replace\b', r'\*mut\b', r'\btransmute\b']
+
+# the two sites of the pinned tree that mention these tokens without writing through them: the
+# by-value lane extraction of a vector, and the `Pointer` helper impl for `*mut T` (distance only)
+ALLOW = [('src/packed/vector.rs', 'let lanes: [u64; 2] = core::mem::transmute(self);'),
+         ('src/packed/ext.rs', 'impl<T> Pointer for *mut T {'),
+         ('src/packed/ext.rs', 'unsafe fn distance(self, origin: *mut T) -> usize {')]
 
 
 def run(name, tier, opts=None):
@@ -51,12 +60,14 @@ def run(name, tier, opts=None):
                 nlines += 1
                 for tk in TOKENS:
                     m = re.search(tk, line)
+                    if m and (rel, line.strip()) in ALLOW:
+                        continue
                     if m:
                         hits.append({'file': rel, 'line': ln, 'token': m.group(0), 'text': line.strip()[:160]})
     res = {
         'engine': 'shape', 'status': 'ok', 'obligations': 1, 'discharged': 1,
         'checker_cmd': 'vlib/shape.py frame_scan over /repo/src (comments, #[cfg(test)] modules, src/verif.rs and #[cfg(aho_corasick_verif)] items blanked)',
-        'samples': [{'obligation': 'frame_scan: %d library files / %d lines contain none of: static mut, thread_local!, UnsafeCell, Cell<, RefCell, Atomic*, Mutex, RwLock, Once*, Lazy*, non-constant statics, *mut (other than *mut u8 in SIMD stores), ptr::write' % (nfiles, nlines)}],
+        'samples': [{'obligation': 'frame_scan: %d library files / %d lines contain none of: static mut, thread_local!, UnsafeCell, Cell<, RefCell, Atomic*, Mutex, RwLock, Once*, Lazy*, non-constant statics, *mut / cast_mut / as_mut_ptr / from_raw_parts_mut / NonNull / transmute (two allow-listed read-only sites), ptr::write / copy / swap' % (nfiles, nlines)}],
         'failures': [], 'trusted': ['rustc borrow checking: without interior mutability, code holding only `&self` cannot mutate the searcher (Rust soundness, assumed)'],
         'wall_s': time.time() - t0,
     }
